@@ -353,6 +353,29 @@ impl Ctx {
         self.inner.lock().unwrap().violations.len()
     }
 
+    /// (child -> parent) counters as JSON
+    pub fn stats_json(&self) -> String {
+        let i = self.inner.lock().unwrap();
+        json!({"classes": i.classes, "nontrivial": i.nontrivial.iter().collect::<Vec<_>>()}).to_string()
+    }
+
+    pub fn merge_stats_json(&self, js: &str) {
+        let Ok(v) = serde_json::from_str::<Value>(js) else { return };
+        let mut i = self.inner.lock().unwrap();
+        if let Some(c) = v["classes"].as_object() {
+            for (k, n) in c {
+                *i.classes.entry(k.clone()).or_insert(0) += n.as_u64().unwrap_or(0);
+            }
+        }
+        if let Some(a) = v["nontrivial"].as_array() {
+            for h in a {
+                if let Some(h) = h.as_u64() {
+                    i.nontrivial.insert(h);
+                }
+            }
+        }
+    }
+
     /// For helper child processes: prints the violations found (the parent re-reports them) and
     /// writes neither evidence nor replay files.
     pub fn finish_child(&self) -> i32 {
